@@ -994,4 +994,206 @@ Proof.
     split; [exact Etok|]. split; [exact Ho|]. split; [|exact Hr]. rewrite records_set_records. apply lookup_insert.
 Qed.
 
+(** * 7. The readers *)
+Definition blk (e : ent) : N := (fst e / 256)%N.
+
+Lemma elt_of_blk x y : (blk x < blk y)%N -> elt x y.
+Proof.
+  unfold blk, elt. intros H. destruct (N.lt_ge_cases (fst x) (fst y)) as [Hlt|Hge]; [exact Hlt|].
+  exfalso. assert (fst y / 256 <= fst x / 256)%N by (apply N.div_le_mono; [lia|exact Hge]). lia.
+Qed.
+
+Lemma spec_ents_blk m tk nk tb e : e ∈ spec_ents m tk nk tb -> blk e = tb.
+Proof.
+  intros He. apply elem_of_spec_ents in He as [i (Hi & _ & Hc)]. unfold blk. rewrite Hc.
+  rewrite N.div_add_l by lia. rewrite N.div_small by lia. lia.
+Qed.
+
+Lemma SSorted_app_blk (l1 l2 : list ent) t :
+  StronglySorted elt l1 -> StronglySorted elt l2 -> (forall e, e ∈ l1 -> blk e = t) ->
+  (forall e, e ∈ l2 -> (t < blk e)%N) -> StronglySorted elt (l1 ++ l2).
+Proof.
+  intros S1 S2 H1 H2. apply SSorted_app; [exact S1|exact S2|].
+  intros x y Hx Hy. apply elt_of_blk. rewrite (H1 x Hx). apply H2. exact Hy.
+Qed.
+
+(** all entries of (token, name): the five type blocks in ascending order *)
+Definition all_ents (m : gmap rkey rstate) (tk nk : bytes) : list ent :=
+  spec_ents m tk nk 1 ++ spec_ents m tk nk 5 ++ spec_ents m tk nk 6 ++ spec_ents m tk nk 16 ++ spec_ents m tk nk 28.
+
+Lemma rec_entries_spec m tk nk : minv m -> rec_entries m tk nk = all_ents m tk nk.
+Proof.
+  intros Hinv. apply (strict_sorted_unique elt); [exact elt_asym| | |].
+  - apply SSorted_rec_entries. exact Hinv.
+  - unfold all_ents.
+    apply (SSorted_app_blk _ _ 1%N); [apply SSorted_spec_ents| |apply spec_ents_blk|].
+    2:{ intros e. rewrite !elem_of_app. intros [He|[He|[He|He]]]; apply spec_ents_blk in He; lia. }
+    apply (SSorted_app_blk _ _ 5%N); [apply SSorted_spec_ents| |apply spec_ents_blk|].
+    2:{ intros e. rewrite !elem_of_app. intros [He|[He|He]]; apply spec_ents_blk in He; lia. }
+    apply (SSorted_app_blk _ _ 6%N); [apply SSorted_spec_ents| |apply spec_ents_blk|].
+    2:{ intros e. rewrite !elem_of_app. intros [He|He]; apply spec_ents_blk in He; lia. }
+    apply (SSorted_app_blk _ _ 16%N); [apply SSorted_spec_ents|apply SSorted_spec_ents|apply spec_ents_blk|].
+    intros e He. apply spec_ents_blk in He. lia.
+  - intros e. rewrite elem_of_rec_entries. unfold all_ents. rewrite !elem_of_app, !elem_of_spec_ents. split.
+    + intros [t [i [Hm Hc]]]. destruct (minv_small _ _ _ _ _ Hinv (ex_intro _ _ Hm)) as [Hi Ht].
+      destruct Ht as [->|[->|[->|[->| ->]]]]; [left|right; left|right; right; left|right; right; right; left|right; right; right; right];
+        exists i; auto.
+    + intros [He|[He|[He|[He|He]]]]; destruct He as [i (Hi & Hm & Hc)]; eauto.
+Qed.
+
+Lemma filter_all {A} (P : A -> Prop) `{!forall x, Decision (P x)} (l : list A) :
+  (forall x, x ∈ l -> P x) -> filter P l = l.
+Proof.
+  induction l as [|x l IH]; intros Hall; [reflexivity|].
+  rewrite filter_cons. destruct (decide (P x)) as [_|Hn]; [|exfalso; apply Hn, Hall; left].
+  f_equal. apply IH. intros y Hy. apply Hall. right. exact Hy.
+Qed.
+
+Lemma filter_none {A} (P : A -> Prop) `{!forall x, Decision (P x)} (l : list A) :
+  (forall x, x ∈ l -> ~ P x) -> filter P l = [].
+Proof.
+  induction l as [|x l IH]; intros Hall; [reflexivity|].
+  rewrite filter_cons. destruct (decide (P x)) as [Hp|_]; [exfalso; apply (Hall x); [left|exact Hp]|].
+  apply IH. intros y Hy. apply Hall. right. exact Hy.
+Qed.
+
+Lemma tyb_lt tb : tyb tb -> (tb < 128)%N.
+Proof. unfold tyb. lia. Qed.
+
+(** GetRecords returns the specification list *)
+Lemma get_records_spec c s name typ s' v ns :
+  rec_inv s -> nexec c s (GetRecords name typ) = Halt (s', v, ns) ->
+  exists tok tb nst,
+    length (split_dot name) <> 1%nat /\ tok_of c s name = Halt tok /\
+    get_frag_ns hash c s tok [] = Halt nst /\ to_byte typ = Halt tb /\
+    s' = s /\ ns = [] /\ v = VList (map VBytes (spec_recs s (hash tok) (hash name) tb)).
+Proof.
+  intros Hinv H. unfold NNS.nexec in H. cbv zeta in H.
+  inv1 H. inv1 H. inv1 H. inv1 H. injection H as <- <- <-.
+  rename x into tok. rename x1 into tb.
+  exists tok, tb. eexists. split; [lia|]. split; [reflexivity|]. split; [first [eassumption|reflexivity]|].
+  split; [reflexivity|]. split; [reflexivity|]. split; [reflexivity|]. f_equal.
+  rewrite (find_by_type_spec _ _ _ _ Hinv). rewrite filter_all.
+  - unfold spec_recs. rewrite !map_fmap, <- list_fmap_compose. reflexivity.
+  - intros e He. destruct (elem_of_spec_ents_wf _ _ _ _ _ Hinv He) as [(_ & Ht & _ & Hty) _].
+    apply Z.eqb_eq. rewrite Ht. symmetry. apply to_byte_small; [assumption|]. apply tyb_lt. exact Hty.
+Qed.
+
+(** the value of one entry, from the specification list *)
+Definition rec_vals (name : bytes) (tb : N) (l : list bytes) : list val :=
+  imap (fun j d => VList [VBytes name; VInt (Z.of_N tb); VBytes d; VInt (Z.of_nat j)]) l.
+
+Lemma ent_vals_spec s tk name tb :
+  rec_inv s ->
+  ent_val <$> spec_ents (records s) tk (hash name) tb = rec_vals name tb (spec_recs s tk (hash name) tb).
+Proof.
+  intros Hinv. destruct (count_ok_ex s tk (hash name) tb Hinv) as [k Hk].
+  apply list_eq. intros j. unfold rec_vals. rewrite list_lookup_fmap, list_lookup_imap.
+  destruct (spec_ents_lookup _ _ _ _ _ j Hk) as [_ L2].
+  destruct (spec_recs_lookup _ _ _ _ _ j Hk) as [_ L3]. rewrite L3.
+  etrans; [exact (f_equal (fmap ent_val) L2)|].
+  destruct (records s !! (tk, hash name, tb, N.of_nat j)) as [r|] eqn:Er; [|reflexivity].
+  simpl. destruct (proj1 Hinv _ _ _ _ _ Er) as (Hn & Ht & Hi & _). apply hash_inj in Hn.
+  unfold ent_val. simpl. rewrite Hn, Ht, Hi. replace (Z.of_N (N.of_nat j)) with (Z.of_nat j) by lia. reflexivity.
+Qed.
+
+Definition all_vals (s : nstate) (tk : bytes) (name : bytes) : list val :=
+  rec_vals name 1 (spec_recs s tk (hash name) 1) ++ rec_vals name 5 (spec_recs s tk (hash name) 5) ++
+  rec_vals name 6 (spec_recs s tk (hash name) 6) ++ rec_vals name 16 (spec_recs s tk (hash name) 16) ++
+  rec_vals name 28 (spec_recs s tk (hash name) 28).
+
+Lemma get_all_records_halt c s name frags es :
+  get_all_records hash valid_name c s name frags = Halt es ->
+  exists tok nst, tok_of c s name = Halt tok /\ get_frag_ns hash c s tok [] = Halt nst /\
+    es = rec_entries (records s) (hash tok) (hash name).
+Proof.
+  unfold get_all_records. intros H. inv1 H. inv1 H. injection H as <-.
+  eexists _, _. split; [reflexivity|]. split; [first [eassumption|reflexivity]|reflexivity].
+Qed.
+
+(** GetAllRecords = the five lists in ascending type order *)
+Lemma get_all_records_spec c s name s' v ns :
+  rec_inv s -> nexec c s (GetAllRecords name) = Halt (s', v, ns) ->
+  exists tok nst,
+    length (split_dot name) <> 1%nat /\ tok_of c s name = Halt tok /\
+    get_frag_ns hash c s tok [] = Halt nst /\
+    s' = s /\ ns = [] /\ v = VList (all_vals s (hash tok) name).
+Proof.
+  intros Hinv H. unfold NNS.nexec in H. cbv zeta in H.
+  inv1 H. inv1 H. injection H as <- <- <-.
+  match goal with E : get_all_records _ _ _ _ _ _ = Halt _ |- _ =>
+    apply get_all_records_halt in E as (tok & nst & Etok & Ens & ->) end.
+  exists tok, nst. split; [lia|]. split; [exact Etok|]. split; [exact Ens|].
+  split; [reflexivity|]. split; [reflexivity|]. f_equal.
+  rewrite (rec_entries_spec _ _ _ Hinv). unfold all_ents, all_vals. rewrite map_fmap, !fmap_app.
+  rewrite !(ent_vals_spec s (hash tok) name) by exact Hinv. reflexivity.
+Qed.
+
+(** * 8. Distinctness *)
+Definition distinct_inv (s : nstate) : Prop := forall tk nk tb, NoDup (spec_recs s tk nk tb).
+
+Lemma distinct_from_non_soa s :
+  rec_inv s -> (forall tk nk tb, tb <> 6%N -> NoDup (spec_recs s tk nk tb)) -> distinct_inv s.
+Proof.
+  intros Hinv H tk nk tb. destruct (decide (tb = 6%N)) as [->|Hne]; [|apply H; exact Hne].
+  apply NoDup_short. apply (spec_recs_shape s tk nk 6%N Hinv). right. reflexivity.
+Qed.
+
+Lemma NoDup_snoc {A} (l : list A) x : NoDup l -> x ∉ l -> NoDup (l ++ [x]).
+Proof.
+  intros Hl Hx. apply NoDup_app. split; [exact Hl|]. split; [|apply NoDup_singleton].
+  intros y Hy Hy'. apply elem_of_list_singleton in Hy'. subst y. contradiction.
+Qed.
+
+Lemma NoDup_insert_fresh {A} (l : list A) i x :
+  NoDup l -> (forall j, j <> i -> l !! j <> Some x) -> NoDup (<[i := x]> l).
+Proof.
+  intros Hl Hx. apply NoDup_alt. intros a b y Ha Hb.
+  destruct (decide (a = i)) as [->|Hai]; destruct (decide (b = i)) as [->|Hbi]; [reflexivity| | |].
+  - apply list_lookup_insert_Some in Ha as [(_ & -> & _)|[Hc _]]; [|contradiction].
+    rewrite list_lookup_insert_ne in Hb by congruence. exfalso. apply (Hx b); [exact Hbi|exact Hb].
+  - apply list_lookup_insert_Some in Hb as [(_ & -> & _)|[Hc _]]; [|contradiction].
+    rewrite list_lookup_insert_ne in Ha by congruence. exfalso. apply (Hx a); [exact Hai|exact Ha].
+  - rewrite list_lookup_insert_ne in Ha by congruence. rewrite list_lookup_insert_ne in Hb by congruence.
+    eapply NoDup_alt; eassumption.
+Qed.
+
+Lemma nexec_distinct c s o s' v ns :
+  rec_inv s -> distinct_inv s -> nexec c s o = Halt (s', v, ns) -> distinct_inv s'.
+Proof.
+  intros Hinv Hd H. assert (Hinv' : rec_inv s') by (eapply nexec_inv; eassumption).
+  apply distinct_from_non_soa; [exact Hinv'|]. intros tk nk tb Htb6.
+  destruct (nexec_records_cases _ _ _ _ _ _ H) as [E|[(tok & name & data & E)|[(name & typ & data & ->)|[(name & typ & id & data & ->)|(name & typ & ->)]]]].
+  - rewrite (spec_recs_ext s s'); [apply Hd|]. intros i. rewrite E. reflexivity.
+  - rewrite (spec_recs_ext s s'); [apply Hd|]. intros i. rewrite E.
+    apply lookup_insert_ne. intros Heq. apply Htb6. congruence.
+  - apply add_record_spec in H as (tok & tb0 & _ & _ & _ & Hnin & _ & _ & Happ & Hoth & _); [|exact Hinv].
+    destruct (decide ((tk, nk, tb) = (hash tok, hash name, tb0))) as [Heq|Hne].
+    + injection Heq as -> -> ->. rewrite Happ. apply NoDup_snoc; [apply Hd|exact Hnin].
+    + rewrite Hoth; [apply Hd|exact Hne|]. intros Heq. apply Htb6. congruence.
+  - apply set_record_spec in H as (tok & tb0 & _ & _ & _ & _ & _ & Hfresh & Hrep & Hoth & _); [|exact Hinv].
+    destruct (decide ((tk, nk, tb) = (hash tok, hash name, tb0))) as [Heq|Hne].
+    + injection Heq as -> -> ->. rewrite Hrep. apply NoDup_insert_fresh; [apply Hd|exact Hfresh].
+    + rewrite Hoth; [apply Hd|exact Hne|]. intros Heq. apply Htb6. congruence.
+  - apply delete_records_spec in H as (tok & tb0 & _ & _ & _ & Hnil & Hoth & _); [|exact Hinv].
+    destruct (decide ((tk, nk, tb) = (hash tok, hash name, tb0))) as [Heq|Hne].
+    + injection Heq as -> -> ->. rewrite Hnil. constructor.
+    + rewrite Hoth; [apply Hd|exact Hne|]. intros Heq. apply Htb6. congruence.
+Qed.
+
+Lemma distinct_init : distinct_inv ninit.
+Proof. intros tk nk tb. rewrite spec_recs_nil; [constructor|]. intros i. apply lookup_empty. Qed.
+
+Lemma nrun_from_distinct ops s : rec_inv s -> distinct_inv s -> distinct_inv (nrun_from s ops).
+Proof.
+  revert s. induction ops as [|co ops IH]; intros s Hinv Hd; [exact Hd|].
+  unfold NNS.nrun_from. simpl. apply IH; [apply nstep_inv; exact Hinv|].
+  destruct (nstep_cases hash valid_name valid_data str_ok s co) as [(s' & r & ns & He & ->)|[_ ->]].
+  - simpl. eapply nexec_distinct; eassumption.
+  - exact Hd.
+Qed.
+
+Lemma nrun_distinct ops : distinct_inv (nrun ops).
+Proof. apply nrun_from_distinct; [exact minv_empty|exact distinct_init]. Qed.
+
 End Records.
